@@ -203,6 +203,7 @@ inductive Arg where
   | int (raw : Nat)          -- an integer-class argument as a 64-bit pattern
   | dbl (bits : Nat)
   | str (s : Bytes)          -- the bytes up to the terminator
+  | gstr (s : Bytes)         -- a library string: all its bytes, of known length (`%S`)
 deriving Repr
 
 def cstrlen (s : Bytes) : Bytes := s.takeWhile (· ≠ 0)
@@ -230,6 +231,35 @@ def wcBytes (raw : Nat) : Bytes :=
 def charBody (s : Spec) (raw : Nat) : Bytes :=
   if s.len = .l then wcBytes raw else [UInt8.ofNat (raw % 256)]
 
+/-- `gp_utf8_codepoint_length`: the length a lead byte announces, 0 for a byte that is no lead byte -/
+def leadLen (b : UInt8) : Nat :=
+  let k := b.toNat / 8
+  if k < 16 then 1 else if k < 24 then 0 else if k < 28 then 2 else if k < 30 then 3 else if k = 30 then 4 else 0
+
+/-- the scan of `pf_write_S`: walk the code points of the first `limit` bytes; when a code point crosses the
+limit it is dropped.  Result: (bytes kept, code points kept); `none` when a byte that is no lead byte is met
+(the scan of the implementation does not advance there) -/
+def ustrScan (str : Bytes) (limit : Nat) : (fuel i cnt last : Nat) → Option (Nat × Nat)
+  | 0, _, _, _ => none
+  | fuel + 1, i, cnt, last =>
+    if i > limit then some (i - last, cnt - 1)
+    else if i = limit then some (i, cnt)
+    else
+      let l := leadLen (str.getD i 0)
+      if l = 0 then none else ustrScan str limit fuel (i + l) (cnt + 1) l
+
+def ustrLimit (prec : Option Nat) (str : Bytes) : Nat :=
+  match prec with | none => str.length | some p => min str.length p
+
+/-- what `%S` prints of a library string: at most `precision` bytes, cut back to a code point boundary -/
+def ustrArg (prec : Option Nat) (str : Bytes) : Option (Bytes × Nat) :=
+  (ustrScan str (ustrLimit prec str) (ustrLimit prec str + 2) 0 0 0).map fun r => (str.take r.1, r.2)
+
+/-- `%S`: the field width counts code points, padding is spaces -/
+def fmtUStr (s : Spec) (str : Bytes) : Option Bytes :=
+  (ustrArg s.prec str).map fun r =>
+    if s.flags.dash then r.1 ++ List.replicate (s.width - r.2) 32 else List.replicate (s.width - r.2) 32 ++ r.1
+
 /-- one conversion; `none` when the argument kind does not fit -/
 def formatOne (s : Spec) : Arg → Option Bytes
   | .int raw =>
@@ -246,5 +276,6 @@ def formatOne (s : Spec) : Arg → Option Bytes
     if s.conv = 's' then
       some (padField { s.flags with zero := false } s.width [] (strArg s.prec str) false)
     else none
+  | .gstr str => if s.conv = 'S' then fmtUStr s str else none
 
 end Gpc.Printf
